@@ -66,6 +66,13 @@ def run(tier, seed):
                                         "--fillers", str([1500, 1100, 2100, 1300][i % 4]), "--faultat", "0", "--faultmode", "3",
                                         "--forcesync", "1", "--keys", "3", "--cpus", "2", "--blocks", "2400", "--fmt", "3",
                                         "--ttl", "1", "--end", "drop", "--maximages", "60", "--cc", "0"]))
+    # the same kind of outage starting in the middle of a workload, crash images at every device event:
+    # whatever the failing batches leave behind, the last acknowledged state stays recoverable
+    for i in range(4 if tier == "quick" else 16):
+        ojobs.append(("midoutage%d" % i, ["--seed", str(rng.randrange(1 << 30)), "--steps", "40", "--faultat", str(rng.choice([25, 40, 60])),
+                                           "--faultmode", "3", "--forcesync", "1", "--keys", "4", "--cpus", str([4, 8, 4, 16][i % 4]),
+                                           "--blocks", "44", "--fmt", str([3, 2][i % 2]), "--ttl", "1", "--end", "drop", "--flushpct", "20",
+                                           "--maximages", "400", "--cc", "1"]))
     placements += len(ojobs)
     viol, st, traces = ce.run_and_validate(PROP, fxv, rd, ojobs, INV, par_tlc=6)
     all_viol += viol
